@@ -572,6 +572,7 @@ impl Compiler {
                         (None, None) => {}
                     }
 
+                    self.compile_try_ends_for_loop_exit();
                     self.push_op(Jump, &[]);
                     self.push_loop_jump_placeholder()?;
 
@@ -587,6 +588,7 @@ impl Compiler {
                     if let Some(result_register) = loop_result_register {
                         self.push_op(SetNull, &[result_register]);
                     }
+                    self.compile_try_ends_for_loop_exit();
                     self.push_jump_back_op(JumpBack, &[], loop_start_ip);
 
                     CompileNodeOutput::none()
@@ -2096,6 +2098,20 @@ impl Compiler {
         }
     }
 
+    // Clears the catch points of any try blocks that are being left by a `break` or `continue`
+    fn compile_try_ends_for_loop_exit(&mut self) {
+        let frame = self.frame();
+        let try_blocks_in_loop = match frame.current_loop() {
+            Some(loop_info) => frame.active_try_blocks - loop_info.active_try_blocks,
+            None => 0,
+        };
+        for _ in 0..try_blocks_in_loop {
+            // A dummy byte is appended to TryEnd as required by the bytecode format.
+            let dummy_byte = 0;
+            self.push_op(Op::TryEnd, &[dummy_byte]);
+        }
+    }
+
     fn compile_try_expression(
         &mut self,
         try_expression: &AstTry,
@@ -2124,7 +2140,11 @@ impl Compiler {
             _ => ResultRegister::None,
         };
 
-        self.compile_node(*try_block, ctx.with_register(try_result_register))?;
+        self.frame_mut().active_try_blocks += 1;
+        let try_block_result =
+            self.compile_node(*try_block, ctx.with_register(try_result_register));
+        self.frame_mut().active_try_blocks -= 1;
+        try_block_result?;
 
         // Clear the catch point at the end of the try block
         // - if the end of the try block has been reached then the catch block is no longer needed.
